@@ -277,7 +277,7 @@ def _spell(r, conv, hand):
 # ------------------------------------------------------------------ 1. affine construction
 def _affine_cases(ctx, reqs, pend):
     from highdicom import spatial as sp
-    n = ctx.n(160, 4000)
+    n = ctx.n(1300, 5000)
     combos = list(itertools.product(CONVS_ALL, HANDS, (False, True), ('seq', 'scalar')))
     for i in range(n):
         r = ctx.rng('affine', i)
@@ -386,7 +386,7 @@ def _pts_int(r, k):
 
 def _transformer_cases(ctx, reqs, pend):
     from highdicom import spatial as sp
-    n = ctx.n(120, 3000)
+    n = ctx.n(1000, 4000)
     for i in range(n):
         r = ctx.rng('transf', i)
         pl = _plane(r)
@@ -523,7 +523,7 @@ def _transformer_cases(ctx, reqs, pend):
 # ------------------------------------------------------------------ 3. pixel-to-pixel / image-to-image
 def _pair_cases(ctx, reqs, pend):
     from highdicom import spatial as sp
-    n = ctx.n(100, 2500)
+    n = ctx.n(900, 3500)
     for i in range(n):
         r = ctx.rng('pair', i)
         a = _plane(r)
@@ -701,7 +701,7 @@ def _letters_cases(ctx, reqs, pend):
         if st != 'ok' or not np.array_equal(out2, wantA):
             ctx.fail(dict(case, fn='VolumeGeometry.get_affine'), f'{st}', site='to_convention')
     # a few source conventions other than LPH (model comparison + oracle)
-    for k in range(ctx.n(40, 400)):
+    for k in range(ctx.n(250, 600)):
         rr = ctx.rng('conv', k)
         f, t = rr.choice(oris), rr.choice(oris)
         st, out = _call(sp._transform_affine_to_convention, A0, (3, 4, 5), _spell_letters(rr, f), _spell_letters(rr, t))
@@ -726,7 +726,7 @@ def _letters_cases(ctx, reqs, pend):
         reqs.append(('rotationForOrientation', {'letters': bad, 'spacing': '1'}))
         pend.append(({'fn': 'rotation_for_patient_orientation', 'letters': bad}, (st, out), 0))
     # closest orientation of oblique matrices: dominant axis per column, ties at 45 degrees
-    for k in range(ctx.n(60, 1500)):
+    for k in range(ctx.n(500, 2000)):
         rr = ctx.rng('closest', k)
         row, col, cls = _orientation(rr)
         m = np.column_stack([np.cross(row, col) * _spacing(rr), col * _spacing(rr), row * _spacing(rr)])
@@ -756,7 +756,7 @@ def _components_cases(ctx, reqs, pend):
     import highdicom as hd
     from highdicom import spatial as sp
     oris = _all_orientations()
-    n = ctx.n(120, 3000)
+    n = ctx.n(1300, 4000)
     for i in range(n):
         r = ctx.rng('comp', i)
         form = ['seq', 'scalar', 'int'][i % 3] if i < 30 else r.choice(['seq', 'seq', 'scalar', 'int'])
@@ -895,7 +895,7 @@ def _components_cases(ctx, reqs, pend):
 def _volume_attr_cases(ctx):
     """VolumeGeometry.from_attributes: accessors return what was given (oracle only; square roots)."""
     import highdicom as hd
-    n = ctx.n(40, 800)
+    n = ctx.n(350, 1000)
     for i in range(n):
         r = ctx.rng('volattr', i)
         pl = _plane(r)
@@ -979,7 +979,7 @@ def _dataset_cases(ctx, reqs, pend):
     from gen import sources
     import copy
     from pydicom.sequence import Sequence as DSeq
-    n = ctx.n(32, 480)
+    n = ctx.n(300, 700)
     tcls = [sp.PixelToReferenceTransformer, sp.ReferenceToPixelTransformer, sp.ImageToReferenceTransformer,
             sp.ReferenceToImageTransformer]
 
@@ -1229,7 +1229,7 @@ def _history_cases(ctx):
     import copy
     from highdicom import spatial as sp
     from gen import sources
-    n = ctx.n(16, 200)
+    n = ctx.n(120, 300)
     tcls = [sp.PixelToReferenceTransformer, sp.ReferenceToPixelTransformer, sp.ImageToReferenceTransformer,
             sp.ReferenceToImageTransformer]
 
